@@ -87,7 +87,7 @@ Section Sound.
     intros vr t H. unfold declared_types in H. apply in_app_or in H as [H | H]; [|apply in_app_or in H as [H | H]].
     - destruct (N.eqb (v_env vr) id_core) eqn:Ee; [|destruct H]. apply N.eqb_eq in Ee.
       apply in_flat_map in H as [s [Hs Ht]].
-      destruct s as [ty x init | | | | ]; try destruct Ht. destruct ty as [ | | | | c]; try destruct Ht.
+      destruct s as [ty x init | | | | | ]; try destruct Ht. destruct ty as [ | | | | c]; try destruct Ht.
       destruct (N.eqb x (v_name vr)) eqn:Ex; [|destruct Ht]. apply N.eqb_eq in Ex. destruct Ht as [<- | []]. subst x.
       eapply DT_local; eassumption.
     - destruct (find_obj sol (v_env vr)) as [r|] eqn:Er; [|destruct H].
